@@ -1716,6 +1716,39 @@ def probe_operator(op, kind, rng, cls, label, sizeclass, setup, rebuild=None):
                 except Exception as e:      # noqa
                     P(False, 'reject-domain-%s' % lab, 'wrong-length component list raised %s instead of '
                       'OpDomainError' % type(e).__name__)
+    if (not scalar_dom and not isinstance(dom, odl.ProductSpace) and hasattr(dom, 'shape') and hasattr(dom, 'dtype')
+            and _is_float(np.dtype(dom.dtype)) and len(dom.shape) >= 1):
+        # input that cannot be converted is rejected: raw array-likes whose shape differs from the domain shape
+        # (also only by singleton axes) or whose dtype kind does not fit, before _call runs, out untouched
+        shp = tuple(dom.shape)
+        base = np.array(np.asarray(x), copy=True).reshape(shp)
+        bads = [('lead1', base.reshape((1,) + shp)), ('trail1', base.reshape(shp + (1,))),
+                ('mid1', base.reshape(shp[:1] + (1,) + shp[1:])),
+                ('too-long', np.concatenate([base.ravel(), base.ravel()[:1]])),
+                ('too-short', base.ravel()[:-1]), ('strings', np.array(['a'] * base.size).reshape(shp))]
+        # (an object array of None is converted to NaN by NumPy and accepted: existing behaviour, no claim)
+        if len(shp) >= 2:
+            bads.append(('flattened', base.ravel()))
+            if shp != shp[::-1]:
+                bads.append(('transposed', np.ascontiguousarray(base.T)))
+        if 1 in shp and base.size > 1:
+            bads.append(('squeezed', base.squeeze()))
+        for lab, bad in bads:
+            for form in (('ndarray', 'list') if lab in ('lead1', 'trail1', 'squeezed') else ('ndarray',)):
+                arg = bad if form == 'ndarray' else bad.tolist()
+                for with_out in ((False,) if functional else (False, True)):
+                    y = _poison(ran) if with_out else None
+                    yb = _flat(y).tobytes() if with_out else None
+                    clause = 'reject-shape-%s' % lab
+                    what = ('a raw %s of shape %s (%s) for a domain of shape %s' % (form, bad.shape, lab, shp))
+                    try:
+                        op(arg, out=y) if with_out else op(arg)
+                        P(False, clause, what + ' must be rejected, but the call returned'
+                          + (' and wrote into out' if with_out and _flat(y).tobytes() != yb else ''))
+                    except (OpDomainError, TypeError):
+                        P(y is None or _flat(y).tobytes() == yb, clause, what + ' raises OpDomainError/TypeError, out untouched')
+                    except Exception as e:      # noqa
+                        P(False, clause, what + ' raised %s instead of OpDomainError' % type(e).__name__)
     try:
         op('not an element')
         P(False, 'reject-domain', 'a string argument must be rejected')
